@@ -7,6 +7,7 @@
 import Lean.Data.Json
 import J2M.Pipeline
 import J2M.Render
+import J2M.Lex
 namespace J2M.Codec
 open Lean (Json)
 
